@@ -117,25 +117,25 @@ prop("C20", True,
 # Families added while the checks were strengthened against four rounds of independently
 # seeded changes (DESIGN.md section 11); the evidence files carry their exact rules and counts.
 ADDED = {
- "C01": "operands include error-handler objects, resource names, system objects and 48-level shared graphs (2^48 paths); flex / hint-replacement macro tokens and 1..40 repetitions of every charstring token; 100 ways of putting non-fonts into the font directory; self-referential seac composites; deep-nesting (procedure literals, marks and loop-built containers nested up to 12 million deep, through the interpreter, ReadCMap and type1.Read); AFM section headers announcing up to 2^63-1 entries; internaldict / userdict / FontDirectory / CIDInit as operands; name-alias-cycles; subroutines of 30,000 operators in the call fan-out; range bodies with bounds of up to 9 bytes",
- "C02": "system objects, the null object and probe-key dictionaries as operands; every fresh interpreter's start state compared with the reference; integer-boundaries (108 boundary integers, all ordered pairs x every numeric operator); start states with null-valued and shadowed names; rebinding through put/copy as single macro operations; procedures bound while an operator was known under an alias that is rebound later; boundary integers as roll amounts and index / copy operands; leading sub-intervals (overlapping putinterval / copy); the empty name and a resource category name as operands",
+ "C01": "operands include error-handler objects, resource names, system objects and 48-level shared graphs (2^48 paths); flex / hint-replacement macro tokens and 1..40 repetitions of every charstring token; 100 ways of putting non-fonts into the font directory; self-referential seac composites; deep-nesting (procedure literals, marks and loop-built containers nested up to 12 million deep, through the interpreter, ReadCMap and type1.Read); AFM section headers announcing up to 2^63-1 entries; internaldict / userdict / FontDirectory / CIDInit as operands; name-alias-cycles; subroutines of 30,000 operators in the call fan-out; range bodies with bounds of up to 9 bytes; seac-chains (composites of composites, 1..255 deep); multiplying-operators (count copy, aload, astore in loops under three budgets)",
+ "C02": "system objects, the null object and probe-key dictionaries as operands; every fresh interpreter's start state compared with the reference; integer-boundaries (108 boundary integers, all ordered pairs x every numeric operator); start states with null-valued and shadowed names; rebinding through put/copy as single macro operations; procedures bound while an operator was known under an alias that is rebound later; boundary integers as roll amounts and index / copy operands; leading sub-intervals (overlapping putinterval / copy); the empty name and a resource category name as operands; the mark of << and a procedure's body string as operands",
  "C03": "rebinding through put; strings with bytes >= 0x80; loop-operands (for over 8^3 operand triples incl. increment 0, repeat, forall over 16 containers x 8 bodies); repetition (17 bodies x N up to 400 x repeat / for / N Execute calls on one interpreter); nested-forall over arrays, strings and dictionaries at 2-3 levels with a closed-form oracle; stop-inside-eexec; for at both ends of the integer range (972 triples); tail-calls-and-exit-handlers (self-calling loops up to 5000 rounds, 14 loops left by exit x 6 sets of handlers installed in errordict); null / file bindings that hide older definitions; procedures that store into their own body; aliases (names whose value is an executable name); handlers that exit or stop; Execute calls after a program that ended by stop; procedures bound twice",
- "C04": "odd-length texts delivered with io.EOF attached to the last bytes; buffer-boundaries (9 snippets at every offset around three 512-byte boundaries x 3 paddings x 3 readers); DSC comments under all mixes of LF/CR/CRLF line ends and around hex and binary eexec sections; octal escapes and followers; comments ended by a form feed; structured comments ended by a form feed; programs ending in stop; a reader with idle reads (0, nil) in the buffer-boundary family",
+ "C04": "odd-length texts delivered with io.EOF attached to the last bytes; buffer-boundaries (9 snippets at every offset around three 512-byte boundaries x 3 paddings x 3 readers); DSC comments under all mixes of LF/CR/CRLF line ends and around hex and binary eexec sections; octal escapes and followers; comments ended by a form feed; structured comments ended by a form feed; programs ending in stop; a reader with idle reads (0, nil) in the buffer-boundary family; empty continuation lines and bare %% lines under every mix of line ends",
  "C05": "two sections in one stream; all 256 values at each of the first four cipher bytes; what the encrypted part does to the dictionary stack (restored afterwards; inside the section checked against a simulation for 9 stacks x 8 bodies); DSC comments are part of the compared state; closefile followed by each delimiter (17 continuations x 4 containers x 4 bodies); readstring delimiter x first data byte (432 cases, absolute oracle); second-call-after-a-section; prefix sweep behind blank / CR / LF with a plaintext starting LF + DSC; sections delivered in one piece together with io.EOF",
- "C06": "binary containers starting with a control byte / with three hex digits and NUL; a ten-deep subroutine chain; all 256 subsets of the optional Private entries; every third file read through a positioned seekable reader and every third with data + io.EOF; raw CR / LF / CR LF line ends and line continuations inside strings; Subrs arrays with unset elements; white space inside hex bytes; shortest octal escapes before 8 / 9; reals in the Type 1 book's spelling (.0526, 7.); composites with fractional side bearings",
- "C07": "sort-order family (codes that are zero-extended prefixes of each other); files of 1..1000 (thorough 2500) full blocks; 0..70,000 bytes of header before the CMap; every odd-length file delivered with io.EOF attached; ranges at the ends of the code space; reversed code space ranges rejected; operand-stack-boundary (497..500 objects); every third file read once before with the result overwritten by the caller; repeated-entries; %%EOF / %%Trailer comment lines inside the file; a quarter of the files through a source with idle reads; usecmap after the blocks; integer destinations up to 2^63-1",
- "C08": "curve forms x adversarial fractions, one numeric field at a time over 30 adversarial values, fonts > 64 KiB, a long charstring at 512 consecutive alignments, 800-byte info strings with an escape at every critical offset, near-axis segments and tangents; the font value must be unchanged by the writer; every fourth font is edited in place and written again; curve-coincidence-grid (729 equality patterns among a curve's four points); singular font matrices; time zones the header cannot name; long-creeping-paths; near-axis steps 20,000 units from the origin; single steps up to 10^9.5 and +-2^31",
+ "C06": "binary containers starting with a control byte / with three hex digits and NUL; a ten-deep subroutine chain; all 256 subsets of the optional Private entries; every third file read through a positioned seekable reader and every third with data + io.EOF; raw CR / LF / CR LF line ends and line continuations inside strings; Subrs arrays with unset elements; white space inside hex bytes; shortest octal escapes before 8 / 9; reals in the Type 1 book's spelling (.0526, 7.); composites with fractional side bearings; counter control calls with 22 arguments; large-fonts (up to 9000 glyphs / 4.4 million charstring tokens in every container)",
+ "C07": "sort-order family (codes that are zero-extended prefixes of each other); files of 1..1000 (thorough 2500) full blocks; 0..70,000 bytes of header before the CMap; every odd-length file delivered with io.EOF attached; ranges at the ends of the code space; reversed code space ranges rejected; operand-stack-boundary (497..500 objects); every third file read once before with the result overwritten by the caller; repeated-entries; %%EOF / %%Trailer comment lines inside the file; a quarter of the files through a source with idle reads; usecmap after the blocks; integer destinations up to 2^63-1; literal names with bytes above 127",
+ "C08": "curve forms x adversarial fractions, one numeric field at a time over 30 adversarial values, fonts > 64 KiB, a long charstring at 512 consecutive alignments, 800-byte info strings with an escape at every critical offset, near-axis segments and tangents; the font value must be unchanged by the writer; every fourth font is edited in place and written again; curve-coincidence-grid (729 equality patterns among a curve's four points); singular font matrices; time zones the header cannot name; long-creeping-paths; near-axis steps 20,000 units from the origin; single steps up to 10^9.5 and +-2^31; info strings that look like the file's own markers",
  "C09": "the same additional font families as C08; write must leave the font value unchanged; every fourth font is edited in place and written again; the same new families as C08; creation times in zones with second offsets / arbitrary names; read back through HalfReader / OneByteReader",
  "C10": "hint configurations with repeated stems, fonts > 64 KiB, all subsets of the Private entries, coordinates n + 1/d for n up to 10^9, control bytes followed by digits in info strings; 15..20 BlueValues and 11..12 OtherBlues; a contour starting where the previous one ended; near-axis steps far from the origin; 620-byte strings with escapes at 26 critical offsets; inputs read after a font that stores into StandardEncoding; negative standard stem widths; curves that look like hv / vh curves and are not",
- "C11": "growth shapes through aliases; the budget across several Execute calls; 54 growth shapes x 10 contexts (inside error handlers, forall bodies, bound procedures, ...); operators whose work depends on a size among the cut-point programs; stack-fill programs with exact expectations incl. unterminated procedure bodies; calls after the budget error leave NumOps at N+1; after a rejected start further inputs without %! are rejected; loops announced for many rounds and left early at every budget; nesting-limit-across-an-eexec-section; empty-body loops; recursion through completed tail calls; nesting limit independent of what ran before; start check after comment-only input",
+ "C11": "growth shapes through aliases; the budget across several Execute calls; 54 growth shapes x 10 contexts (inside error handlers, forall bodies, bound procedures, ...); operators whose work depends on a size among the cut-point programs; stack-fill programs with exact expectations incl. unterminated procedure bodies; calls after the budget error leave NumOps at N+1; after a rejected start further inputs without %! are rejected; loops announced for many rounds and left early at every budget; nesting-limit-across-an-eexec-section; empty-body loops; recursion through completed tail calls; nesting limit independent of what ran before; start check after comment-only input; programs ending in an eexec section that needs no operations, at every cut point",
  "C12": "49 inputs incl. tiny eexec programs, in-line data followed by DSC lines, 12 abruptly ending programs, a CMap tokenised for splitting inside blocks; an empty read (0, nil) among the deviations; seekable sources at non-zero offsets; splitting x 3 operation budgets; stray delimiters in the middle of a program; PFB streams ending in a text segment without end marker; sections that look binary behind four hex digits; heavy-inputs-through-different-readers; AFM files with an unterminated last line of up to 2^24+1 bytes; long-programs-in-several-calls (up to 5000 structured comments)",
  "C13": "7 fault styles (error alone / together with the last good bytes / reported once) x 5 error values (sentinel, io.ErrUnexpectedEOF, wrapped io.EOF, ...); a font with a 600-segment glyph among the writer invocations; pfb-text-segment-fault-reported-with-data (289 offsets); faults through a bufio.Reader; write faults reported with the full byte count",
- "C14": "many-short-segments (50..1000 segments x 6 patterns x 5 caller buffers x 3 sources incl. empty reads); thorough: 3 segments / 3 deviations and 4 segments / 2 deviations; bytes-after-the-end-marker; payload-values (first four payload bytes from 8 classes x type x 6 buffers); large-caller-buffers (4 KiB..1 MiB); text segments ending in eexec before binary segments; segments of 2^31-1 .. 2^32-1 bytes; idle reads must not shorten a Read",
+ "C14": "many-short-segments (50..1000 segments x 6 patterns x 5 caller buffers x 3 sources incl. empty reads); thorough: 3 segments / 3 deviations and 4 segments / 2 deviations; bytes-after-the-end-marker; payload-values (first four payload bytes from 8 classes x type x 6 buffers); large-caller-buffers (4 KiB..1 MiB); text segments ending in eexec before binary segments; segments of 2^31-1 .. 2^32-1 bytes; idle reads must not shorten a Read; caller buffers of 4 and 8 GiB",
  "C15": "kerning names with % signs; sizes-and-precision (text fields up to 60,000 bytes, glyphs with up to 3000 ligatures, 5000 glyphs, ItalicAngle with 17 digits); write after a failed write; results overwritten by the caller; the metrics value unchanged by Write; Notice up to 200,000 bytes and lines beyond 64 KiB; every header key twice; flat boxes; EncodingScheme AdobeStandardEncoding declared by the file; Latin-1 / UTF-8 bytes in text fields; rewrite-after-edit history cases; files of about 5 MB",
  "C16": "results-owned-by-caller (every list entry x 4 name shapes: overwrite and extend the result, look up again); long-composites (4..1000 components); first call in a fresh process; every Unicode scalar value inside an otherwise valid name for IsValid",
- "C17": "73+ workloads incl. several fonts per file, blank glyphs away from the origin, signed zeros, glyph names that collide after sanitising; repeatability-across-histories: 18 targets x all histories of <= 2 of 49 operations (writes failing at 7 points in every format, reads of other / broken inputs, programs that rewrite system objects); the overlay also carries the sync shim (deterministic Pool); the wall clock is a choice point (instrument -mode clock: time.Now/Since/Until); history-before-first-use-in-a-fresh-process (850 child processes); programs and CMaps whose result depends on the order of forall over a dictionary; glyph names equal under a natural-order comparison; 3..5 CMaps linked by usecmap; several unwritable names at once; fonts failing with each decoder error, read repeatedly",
- "C18": "G1': first-use rule for package state; hooks on every package-level variable (instrument -mode pkgvars); state image walks foreign types and slice capacity; hostile histories incl. errors / budget inside eexec and the readers, results overwritten through a reflection walk; G5 overlapping executions (17 calls incl. writers, 515 items, scheduling points in readers and writers); G6 cold-start races in child processes that have made no library call before; hostile programs overwrite every composite an operator returns; reads with creation dates in other layouts among the overlapping calls; dictionary comparisons; psenc.StandardEncoding[:] handed back as a font's encoding; hostile-program-first-in-a-fresh-process (child processes); arguments-are-not-written-to",
- "C19": "glyph lists of 11..300 names incl. names sorting before .notdef and nil encodings; all-zero font matrix; one case in sixteen also checks that queries leave the value unchanged and own their results; the empty glyph name; glyphs with commands but no points in the quick tier; both font boxes must take the same reading of an origin-only glyph; IsFixedPitch / ItalicAngle varied; an outline ending in a moveto; glyph sets of up to 70,000 names",
+ "C17": "73+ workloads incl. several fonts per file, blank glyphs away from the origin, signed zeros, glyph names that collide after sanitising; repeatability-across-histories: 18 targets x all histories of <= 2 of 49 operations (writes failing at 7 points in every format, reads of other / broken inputs, programs that rewrite system objects); the overlay also carries the sync shim (deterministic Pool); the wall clock is a choice point (instrument -mode clock: time.Now/Since/Until); history-before-first-use-in-a-fresh-process (850 child processes); programs and CMaps whose result depends on the order of forall over a dictionary; glyph names equal under a natural-order comparison; 3..5 CMaps linked by usecmap; several unwritable names at once; fonts failing with each decoder error, read repeatedly; keys that differ only in case; a dictionary copy stopped half-way with the error swallowed",
+ "C18": "G1': first-use rule for package state; hooks on every package-level variable (instrument -mode pkgvars); state image walks foreign types and slice capacity; hostile histories incl. errors / budget inside eexec and the readers, results overwritten through a reflection walk; G5 overlapping executions (17 calls incl. writers, 515 items, scheduling points in readers and writers); G6 cold-start races in child processes that have made no library call before; hostile programs overwrite every composite an operator returns; reads with creation dates in other layouts among the overlapping calls; dictionary comparisons; psenc.StandardEncoding[:] handed back as a font's encoding; hostile-program-first-in-a-fresh-process (child processes); arguments-are-not-written-to; package state imaged before the first library call of the process; PFB headers arriving in pieces in overlapping calls; a history of writes that fail half-way; race pass rebuilt for tested changes",
+ "C19": "glyph lists of 11..300 names incl. names sorting before .notdef and nil encodings; all-zero font matrix; one case in sixteen also checks that queries leave the value unchanged and own their results; the empty glyph name; glyphs with commands but no points in the quick tier; both font boxes must take the same reading of an origin-only glyph; IsFixedPitch / ItalicAngle varied; an outline ending in a moveto; glyph sets of up to 70,000 names; command lists only the exported field can hold, every outline x every matrix on small fonts",
  "C20": "curve forms x adversarial fraction grid; near-axis segments and tangents; perpendicular creep over 200..10,000 segments; decode after a failed decode; stems up to 65534 units wide; drift-far-from-origin (10,000 curves after a moveto to +-2^31); rewrite-after-edit; many-stems (up to 500 pairs); repeated stem pairs; fractional second control points next to near-axis tangents",
 }
 
